@@ -68,7 +68,7 @@ done <"$OUT/witnesses.txt"
 pids=()
 for k in $(seq 0 $((NSH-1))); do
 	( cd "$VERIF/harness/checks/$pkg" && VERIF_SHARD=$k timeout -k 10 "$TMO" "$TESTBIN" -test.timeout=0 -test.v \
-		-rapid.seed=$((SEED*1000+k+1)) -rapid.nofailfile -rapid.shrinktime=45s ${VERIF_RAPID_FLAGS:-} >"$OUT/shard-$k.log" 2>&1 ) &
+		-rapid.seed=$(( (SEED*64+k)*1099511627776+1 )) -rapid.nofailfile -rapid.shrinktime=45s ${VERIF_RAPID_FLAGS:-} >"$OUT/shard-$k.log" 2>&1 ) &
 	pids+=($!)
 done
 for p in "${pids[@]}"; do wait "$p"; done
